@@ -11,7 +11,7 @@ package main
 //   (race ID schema fresh|rebuilt NG SCOPE (ops (u V)|(v V)|(s V)|(c V) ...))
 //   (race ID units  (pkg NAME)|(new UNITS) NG (ops (pi "s")|(pf "s")|(fsi N)|(fli N)|(fsf F)|(flf F) ...))
 //   (race ID steps  NG PLUGIN (calls ...))                 the c11steps plugin and call syntax
-//   (race ID errs|structs ...), the (cs) operation                         see c13_race2.go
+//   (race ID errs|structs|xstruct ...), the (cs) operation                 see c13_race2.go
 //   (race ID lazy unlinked NG OBJECT (ops (gd fwd|rev)|(u V)|...))         see c13_race3.go
 //   observation: (t ID same N) | (t ID (diff (G I GOT WANT)...)) ; stderr carries "@@trial ID" /
 //   "@@end ID" markers around the race detector's reports.
@@ -407,6 +407,9 @@ func init() {
 				}
 				if i%8 == 5 { // c13_race3.go: first use of a rebuilt, NEVER LINKED object tree (defaults decoded lazily)
 					emit(c13GenLazy(r, next(), pick(r, ngs)))
+				}
+				if i%8 == 3 { // c13_race2.go: generated struct-mapped schemas with sub-object defaults at every level
+					emit(c13GenXStruct(r, next(), pick(r, ngs)))
 				}
 			}
 		},
